@@ -128,6 +128,30 @@ def gen_reservoir():
     for cls, meth in (("IdealReservoir", "simulate"), ("SinglePhaseReservoir", "simulate"), ("TwoPhaseReservoir", "simulate"), ("IdealReservoir", "recovery_factor")):
         fn_ = m.method(cls, meth)
         m.emit_names(f"{cls}_{meth}_params", [a.arg for a in fn_.args.args], f"{cls}.{meth}: parameters in order")
+    # what simulate writes on the object, and WHEN: nothing before or inside the time loop, and after it exactly the statements listed
+    # (the object model of C10 - Lib/ObjectSM.v - has a run stored only once it is complete, the recovery cache dropped with it, and a
+    # call that raises leaving the object as it was)
+    import ast as _ast
+
+    def writes_self(node):
+        for x in _ast.walk(node):
+            if isinstance(x, (_ast.Assign, _ast.AugAssign, _ast.AnnAssign, _ast.Delete)):
+                tg = x.targets if isinstance(x, (_ast.Assign, _ast.Delete)) else [x.target]
+                if any(_ast.unparse(t_).startswith("self") for t_ in tg):
+                    return True
+            if isinstance(x, _ast.Call) and _ast.unparse(x.func).startswith(("self.__dict__", "setattr", "object.__setattr__", "vars(self)", "delattr")):
+                return True
+        return False
+    for cls in ("IdealReservoir", "SinglePhaseReservoir"):
+        simf_ = m.method(cls, "simulate")
+        sb = [n for n in simf_.body if not (isinstance(n, _ast.Expr) and isinstance(n.value, _ast.Constant))]
+        at_ = [i for i, n in enumerate(sb) if isinstance(n, _ast.For)]
+        if len(at_) != 1:
+            raise P.Untranslatable(f"{cls}.simulate: expected exactly one time loop")
+        early = [n for n in sb[:at_[0] + 1] if writes_self(n)]
+        if early:
+            raise P.Untranslatable(f"{cls}.simulate writes on the object before its run is complete: `{_ast.unparse(early[0]).splitlines()[0]}` (line {early[0].lineno})")
+        m.emit_names(f"{cls}_simulate_stores", [_ast.unparse(n) for n in sb[at_[0] + 1:]], f"{cls}.simulate: the statements after the time loop")
     two = m.method("TwoPhaseReservoir", "simulate")
     body2 = [n for n in two.body if not (isinstance(n, __import__("ast").Expr) and isinstance(n.value, __import__("ast").Constant))]
     if [__import__("ast").unparse(n) for n in body2] != ["super().simulate(time)"]:
@@ -177,6 +201,13 @@ def gen_reservoir():
 
     def is_solve(st):
         return isinstance(st, ast.Assign) and "bicgstab" in ast.unparse(st.value)
+
+    def solve_names(cls):
+        """the local names the loop gives to the step's matrix and right-hand side: the two positional arguments of the solver call"""
+        sv = [st for st in loop_body(cls) if is_solve(st)]
+        if len(sv) != 1 or not isinstance(sv[0].value, ast.Call) or len(sv[0].value.args) != 2 or not all(isinstance(a_, ast.Name) for a_ in sv[0].value.args):
+            raise P.Untranslatable(f"{cls}.simulate: the iterative solve is not a call `bicgstab(<matrix name>, <right-hand side name>, ...)`")
+        return [a_.id for a_ in sv[0].value.args]
     for cls, name, args, kinds in (
             ("SinglePhaseReservoir", "single_step_system", ["alpha_scaled_fn", "nx", "m_i", "mf_i", "t_cur", "t_next", "prev"],
              {"alpha_scaled_fn": "fun", "prev": "list"}),
@@ -193,14 +224,14 @@ def gen_reservoir():
             fn = R2().visit(fn)
             m.defined["ideal_alpha_scaled"]["ret"] = "list"
         m.defined["build_matrix"]["ret"] = 3
-        P.Tr(m, fn, emit_name=name, kinds=kinds, cut_before=is_solve, ret_names=["a_matrix", "b"]).translate()
+        P.Tr(m, fn, emit_name=name, kinds=kinds, cut_before=is_solve, ret_names=solve_names(cls)).translate()
     # ... and the ideal class's loop body once more with `self.alpha_scaled` left as a parameter: what a user subclass that overrides
     # the documented hook and inherits `simulate` runs (tie to Lib/ReservoirUser.v in Props/C17_user_law.v)
     fn_u = ast.FunctionDef(name="ideal_step_system_u", args=ast.arguments(posonlyargs=[], args=[ast.arg(arg=a) for a in ("alpha_scaled_fn", "dx_squared", "t_cur", "t_next", "prev")],
                                                                           kwonlyargs=[], kw_defaults=[], defaults=[]),
                            body=loop_body("IdealReservoir"), decorator_list=[], lineno=1, col_offset=0)
     ast.fix_missing_locations(fn_u)
-    P.Tr(m, fn_u, emit_name="ideal_step_system_u", kinds={"alpha_scaled_fn": "fun", "prev": "list"}, cut_before=is_solve, ret_names=["a_matrix", "b"]).translate()
+    P.Tr(m, fn_u, emit_name="ideal_step_system_u", kinds={"alpha_scaled_fn": "fun", "prev": "list"}, cut_before=is_solve, ret_names=solve_names("IdealReservoir")).translate()
     # ---- the rest of the loop body: the iterative solve and what is stored.  Expected shape (anything else fails closed):
     #     nxt, info = sparse.linalg.bicgstab(a_matrix, b, atol=<const>, rtol=<const>)
     #     if <test over info and _is_solved(a_matrix, nxt, b)>:
@@ -213,15 +244,15 @@ def gen_reservoir():
             return P.lit(node.value)
         raise P.Untranslatable(f"{what}: {ast.unparse(node)} is not a numeric module constant")
 
-    def bexp(node, cls):
+    def bexp(node, cls, An="a_matrix", Bn="b"):
         if isinstance(node, ast.BoolOp):
             f = "orb" if isinstance(node.op, ast.Or) else "andb"
-            t = bexp(node.values[0], cls)
+            t = bexp(node.values[0], cls, An, Bn)
             for v in node.values[1:]:
-                t = f"({f} {t} {bexp(v, cls)})"
+                t = f"({f} {t} {bexp(v, cls, An, Bn)})"
             return t
         if isinstance(node, ast.UnaryOp) and isinstance(node.op, ast.Not):
-            return f"(negb {bexp(node.operand, cls)})"
+            return f"(negb {bexp(node.operand, cls, An, Bn)})"
         if isinstance(node, ast.Compare) and len(node.ops) == 1 and isinstance(node.left, ast.Name) and node.left.id == "info":
             c = node.comparators[0]
             if isinstance(c, ast.UnaryOp) and isinstance(c.op, ast.USub) and isinstance(c.operand, ast.Constant):
@@ -235,7 +266,7 @@ def gen_reservoir():
             if op not in tbl:
                 raise P.Untranslatable(f"{cls}.simulate: comparison {ast.unparse(node)}")
             return tbl[op]
-        if isinstance(node, ast.Call) and ast.unparse(node).replace(" ", "") == "_is_solved(a_matrix,nxt,b)":
+        if isinstance(node, ast.Call) and ast.unparse(node).replace(" ", "") == f"_is_solved({An},nxt,{Bn})":
             return "solved"
         raise P.Untranslatable(f"{cls}.simulate: the acceptance test contains {ast.unparse(node)}")
 
@@ -250,7 +281,8 @@ def gen_reservoir():
         if not (len(sv.targets) == 1 and ast.unparse(sv.targets[0]).replace(" ", "") in ("(nxt,info)", "nxt,info")):
             raise P.Untranslatable(f"{cls}.simulate: the solve is not `pseudopressure[i + 1], info = ...` ({ast.unparse(sv.targets[0])}): the convergence flag is not kept")
         call = sv.value
-        if not (isinstance(call, ast.Call) and ast.unparse(call.func) == "sparse.linalg.bicgstab" and [ast.unparse(a) for a in call.args] == ["a_matrix", "b"]):
+        An, Bn = solve_names(cls)
+        if not (isinstance(call, ast.Call) and ast.unparse(call.func) == "sparse.linalg.bicgstab" and [ast.unparse(a) for a in call.args] == [An, Bn]):
             raise P.Untranslatable(f"{cls}.simulate: unexpected solver call {ast.unparse(call)}")
         kw = {k.arg: k.value for k in call.keywords}
         if set(kw) - {"atol", "rtol"}:
@@ -258,11 +290,11 @@ def gen_reservoir():
         atol = const_term(kw["atol"], "atol") if "atol" in kw else "0"
         rtol = const_term(kw["rtol"], "rtol") if "rtol" in kw else "(1 / 100000)"        # scipy's default
         if len(tail) != 2 or not isinstance(tail[1], ast.If) or tail[1].orelse or \
-                [ast.unparse(n).replace(" ", "") for n in tail[1].body] != ["nxt=sparse.linalg.spsolve(a_matrix.tocsc(),b)"]:
+                [ast.unparse(n).replace(" ", "") for n in tail[1].body] != [f"nxt=sparse.linalg.spsolve({An}.tocsc(),{Bn})"]:
             raise P.Untranslatable(f"{cls}.simulate: after the iterative solve the loop is not `if <test>: pseudopressure[i + 1] = spsolve(a_matrix.tocsc(), b)`")
         accept_out.append(f"(* {cls}.simulate: tolerances handed to bicgstab, and the test under which the direct solve replaces its iterate *)\n"
                           f"Definition {tag}_solver_atol : R := {atol}.\nDefinition {tag}_solver_rtol : R := {rtol}.\n"
-                          f"Definition {tag}_falls_back (info : Z) (solved : bool) : bool := {bexp(tail[1].test, cls)}.")
+                          f"Definition {tag}_falls_back (info : Z) (solved : bool) : bool := {bexp(tail[1].test, cls, An, Bn)}.")
     # _is_solved(a_matrix, x, b): `return norm(a_matrix @ x - b) <= <arithmetic over constants and norm(b)>`
     isf = m.funcs.get("_is_solved")
     if isf is None or [a.arg for a in isf.args.args] != ["a_matrix", "x", "b"]:
